@@ -17,6 +17,8 @@ from vcheck.core import Task, Violation
 ID = 'C18'
 LEVEL = 'exploration'
 BUDGET = {'quick': 45, 'thorough': 420}
+# deterministic sub-checks repeated in a `python -O` child (core.optimized_child)
+OPT_SUBS = ('numeric/table', 'string/table', 'in/table', 'all-in/table', 'range-in/table')
 RULE = ('specs are built from (operator, operands, blank layout): the 7 '
         'numeric operators over decimal operands (<= 12 significant digits, '
         'negatives, same value in another spelling, one unit in the last '
